@@ -104,6 +104,31 @@ class Reach:
             self.lines.setdefault(label, set())
             self.all_lines[label] = {ln for (_, _, ln) in code.co_lines() if ln is not None and ln > code.co_firstlineno}
             mon.set_local_events(self.tool, code, E.PY_START | E.LINE)
+        if os.environ.get("VERIF_REACH_ALL") == "1":
+            # diagnostic mode (selftest/reach_gaps.py): every function and method defined in dreye.api.*
+            import inspect
+            for modname, mod in list(sys.modules.items()):
+                if not modname.startswith("dreye.api") or mod is None:
+                    continue
+                objs = []
+                for nm, ob in vars(mod).items():
+                    if inspect.isfunction(ob) and ob.__module__ == modname:
+                        objs.append((nm, ob))
+                    elif inspect.isclass(ob) and ob.__module__ == modname:
+                        for n2, o2 in vars(ob).items():
+                            o2 = o2.fget if isinstance(o2, property) else getattr(o2, "__func__", o2)
+                            if inspect.isfunction(o2):
+                                objs.append((nm + "." + n2, o2))
+                for qual, ob in objs:
+                    code = ob.__code__
+                    if code in self.codes:
+                        continue
+                    label = f"{modname.split('.')[-1]}.{qual}"
+                    self.codes[code] = label
+                    self.calls.setdefault(label, 0)
+                    self.lines.setdefault(label, set())
+                    self.all_lines[label] = {ln for (_, _, ln) in code.co_lines() if ln is not None and ln > code.co_firstlineno}
+                    mon.set_local_events(self.tool, code, E.PY_START | E.LINE)
 
     def _on_start(self, code, offset):
         lab = self.codes.get(code)
